@@ -69,6 +69,11 @@ class RequestChannelCommon(StreamHandler, Publisher, Subscription, Disposable, m
                 logger().warning('%s: Received request_n but no publisher provided', self.__class__.__name__)
 
         elif isinstance(frame, PayloadFrame):
+            if self._received_complete:
+                # Nothing is listening any more (no subscriber was given, it cancelled, or the peer already
+                # completed / failed this direction): payloads still in flight are dropped.
+                return
+
             if frame.flags_next:
                 self.remote_subscriber.on_next(payload_from_frame(frame),
                                                is_complete=frame.flags_complete)
